@@ -172,6 +172,8 @@ def main(argv=None):
     missing_fn_prefixes = [u["obligation"] for u in undecided]
     really_missing = []
     for oid in missing:
+        if "/call-pre#" in oid:
+            continue   # a call site may legitimately disappear; the callee's own obligations remain
         fn = oid.split("/", 1)[1].rsplit("/", 1)[0] if "/" in oid else oid
         if any(fn.split("::")[-1] in m and fn.split("::")[0].split("/")[-1] in m for m in missing_fn_prefixes):
             continue
